@@ -52,7 +52,9 @@ func weights(over map[string]int) map[string]int {
 	return w
 }
 
-var namePool = []string{"a", "ab", "a b", "", "coll:", "d:", "i:x", "c:a", "üñí", "todos", "A", "a.b", "日本", "x-1", "tod"}
+var namePool = []string{"a", "ab", "a b", "", "coll:", "d:", "i:x", "c:a", "üñí", "todos", "A", "a.b", "日本", "x-1", "tod",
+	// bytes a key layout might trip over: NUL, 0xff, a bare colon, a newline, the metadata prefix itself
+	"\x00", "a\x00b", "\xff", ":", "a\nb", "coll", "c:"}
 
 var uuidPool = []string{
 	"00000000-0000-4000-8000-000000000001", "00000000-0000-4000-8000-000000000002",
